@@ -321,6 +321,15 @@ func checkC01(c *core.Ctx) error {
 	if err != nil {
 		return err
 	}
+	// (b) packages with two or three calls of one plugin whose argument types are RELATED by assignability
+	// (type I1 []int, type I2 []int, []int, struct{F []int}): all supported, all names and types distinct,
+	// so generation must succeed (universe: the scenarios of Determinism.tla)
+	relRuns, relOK, err := c01Related(c, bin)
+	if err != nil {
+		return err
+	}
+	c.Set("related_type_packages", relRuns)
+	c.Set("related_type_packages_ok", relOK)
 	ok := 0
 	for _, o := range outs {
 		if o.Exit == 0 && o.Post.Typechecks {
@@ -345,4 +354,102 @@ func checkC01(c *core.Ctx) error {
 	c.Set("exhaustive", !c.Quick())
 	c.Assume("go/types with a source importer is the definition of 'type-checks' and of 'imports exactly what it uses'")
 	return nil
+}
+
+func c01Related(c *core.Ctx, bin string) (int, int, error) {
+	scen, _, _, err := exportDetScenarios(c)
+	if err != nil {
+		return 0, 0, err
+	}
+	keys := make([]string, 0, len(scen))
+	for k, cs := range scen {
+		names, types := map[string]bool{}, map[string]bool{}
+		for _, x := range cs {
+			names[x.N], types[x.K] = true, true
+		}
+		if len(names) == len(cs) && len(types) == len(cs) {
+			keys = append(keys, k) // no conflict and no duplicate in C11's sense
+		}
+	}
+	sort.Strings(keys)
+	var scs []*Scenario
+	for i, k := range keys {
+		scs = append(scs, &Scenario{ID: fmt.Sprintf("c01rel-%04d", i), Files: detFiles(scen[k]), PkgDir: "p", MustSucceed: true, WellTyped: true, Note: k})
+	}
+	outs, err := RunAll(c, bin, scs, RunOpts{Post: true})
+	if err != nil {
+		return 0, 0, err
+	}
+	st, err := ValidateTraces(c, outs)
+	if err != nil {
+		return 0, 0, err
+	}
+	byID := map[string]int{}
+	for i, o := range outs {
+		byID[o.Sc.ID] = i
+	}
+	// witness: the smallest sub-sequence of the calls that is rejected for the same reason and failure class
+	cache := map[string]string{}
+	classOf := func(cs []detCall, chk *Checker) (string, error) {
+		k := detString(cs)
+		if v, ok := cache[k]; ok {
+			return v, nil
+		}
+		o, err := RunOne(c, bin, &Scenario{ID: "min", Files: detFiles(cs), PkgDir: "p", MustSucceed: true, WellTyped: true}, filepath.Join(c.Work, "relmin", fmt.Sprintf("m%05d", len(cache))), chk, RunOpts{Post: true})
+		if err != nil {
+			return "", err
+		}
+		cache[k] = failureClass(o)
+		return cache[k], nil
+	}
+	chk := NewChecker()
+	reported := map[string]bool{}
+	fb := FirstBad(st)
+	runs := make([]string, 0, len(fb))
+	for r := range fb {
+		runs = append(runs, r)
+	}
+	sort.Strings(runs)
+	for _, run := range runs {
+		i := byID[run]
+		for _, why := range fb[run] {
+			if strings.Contains(why, "(C09)") {
+				continue
+			}
+			cls := failureClass(outs[i])
+			cs := scen[keys[i]]
+			best := cs
+			for mask := 1; mask < 1<<len(cs); mask++ {
+				var sub []detCall
+				for j := range cs {
+					if mask&(1<<j) != 0 {
+						sub = append(sub, cs[j])
+					}
+				}
+				sub = detCanon(sub)
+				if len(sub) > len(best) || (len(sub) == len(best) && detString(sub) >= detString(best)) {
+					continue
+				}
+				got, err := classOf(sub, chk)
+				if err != nil {
+					return 0, 0, err
+				}
+				if got == cls {
+					best = sub
+				}
+			}
+			wit := fmt.Sprintf("%s :: equal %s :: %s", why, detString(best), cls)
+			if !reported[wit] {
+				reported[wit] = true
+				c.Report(wit, fmt.Sprintf("first seen on %s; stderr=%q", keys[i], trim(outs[i].Stderr, 200)), map[string]interface{}{"files": detFiles(best)})
+			}
+		}
+	}
+	okN := 0
+	for _, o := range outs {
+		if o.Exit == 0 && o.Post.Typechecks {
+			okN++
+		}
+	}
+	return len(outs), okN, nil
 }
